@@ -307,7 +307,7 @@ class GoDriver:
         return out
 
 
-def run_real_binary(binary, argv, files, env_extra=None, tz='UTC', stdout_to=None, timeout=20, home_config=None, stable_dir=False):
+def run_real_binary(binary, argv, files, env_extra=None, tz='UTC', stdout_to=None, timeout=20, home_config=None, stable_dir=False, modes=None, drop_env=()):
     """run the untagged binary as a sub-process in a scratch directory with the given files"""
     # stable_dir: the same scratch path on every call of this process ($HOME is an input of the program: `gen` prints it)
     base = os.path.join(scratch_root(), 'real-%07d-%09d' % (os.getpid(), 0 if stable_dir else int(time.time() * 1e6) % 10**9))
@@ -334,6 +334,10 @@ def run_real_binary(binary, argv, files, env_extra=None, tz='UTC', stdout_to=Non
         env = {k: v for k, v in os.environ.items() if not k.startswith('HR_')}
         env.update({'HOME': home, 'USER': 'verif', 'TZ': tz})
         env.update(env_extra or {})
+        for k in drop_env:
+            env.pop(k, None)
+        for name, mode in (modes or {}).items():
+            os.chmod(os.path.join(work, name), mode)
         args = [binary] + [a.decode('utf-8', 'surrogateescape') if isinstance(a, bytes) else a for a in argv]
         if stdout_to == 'full':
             with open('/dev/full', 'wb') as sink:
@@ -424,7 +428,7 @@ def obs_equal(impl, model, exact=True, fields=('status', 'class', 'out')):
     if impl.get('status') != model.get('status'):
         return False
     if impl.get('status') == 'err':
-        mclass = {'configMissing': 'other', 'badToday': 'date', 'badDepth': 'other'}.get(model.get('class'), model.get('class'))
+        mclass = {'configMissing': 'other', 'badToday': 'date', 'badDepth': 'other', 'badDateNumeric': 'other'}.get(model.get('class'), model.get('class'))
         if impl.get('class') != mclass:
             return False
         if model.get('class') in ('badSyntax', 'conversion'):
